@@ -1144,6 +1144,41 @@ def case_history(ctx, qp, gen, num, J, rng, idx):
                  sample={"kind": "history", "steps": steps, "hits": hits_total, "pool_tags": tags})
 
 
+def case_derived(ctx, qp, gen, num, J, rng, idx):
+    """History: a tape is executed with a cache (so its ``hash`` has been computed on that very object), then tapes are DERIVED
+    from it with the public API (``tape.copy(measurements=...)``, ``copy(trainable_params=...)``, ``split_non_commuting``) and
+    executed with the same cache.  A derived tape must never be served the source tape's (or a sibling's) result."""
+    base, wires, _wrapped = gen_base(qp, rng, gen, num)
+    base = _rebuild(qp, base, ms=[m for m in base.measurements if type(m).__name__ != "StateMP"] or [qp.expval(qp.Z(wires[0]))], shots=None)
+    shared = RecordingCache(J.rec)
+    case = {"kind": "derived", "case": idx, "step": 0}
+    if run_batch(ctx, qp, gen, J, [base], ["base"], ("shared", shared, 10000), case) is None:
+        return
+    _ = base.hash  # the hash of an executed tape is computed (cached property) - derived tapes must get their own
+    derived, dtags = [], []
+    for _k in range(int(rng.integers(2, 5))):
+        ms = [m for m in gen_measurements(qp, rng, gen, wires, False) if type(m).__name__ != "StateMP"]
+        if ms:
+            derived.append(base.copy(measurements=ms))
+            dtags.append("derived:copy-measurements")
+    w0 = wires[0]
+    multi = base.copy(measurements=[qp.expval(qp.X(w0)), qp.expval(qp.Z(w0)), qp.expval(qp.Y(w0)) if rng.random() < 0.5 else qp.var(qp.X(w0))])
+    if run_batch(ctx, qp, gen, J, [multi], ["derived:multi"], ("shared", shared, 10000), dict(case, step=1)) is not None:
+        _ = multi.hash
+        try:
+            tapes, _fn = qp.transforms.split_non_commuting(multi)
+            derived += list(tapes)
+            dtags += ["derived:split_non_commuting"] * len(tapes)
+        except Exception:  # noqa: BLE001
+            pass
+    if not derived:
+        return
+    h = run_batch(ctx, qp, gen, J, derived, dtags, ("shared", shared, 10000), dict(case, step=2))
+    ctx.count("derived_histories")
+    ctx.case(fingerprint(gen.tape_struct(base), [gen.tape_struct(t) for t in derived]), nontrivial=True, cls="derived",
+             sample={"kind": "derived", "n_derived": len(derived), "tags": dtags, "hits": h})
+
+
 def case_qnode(ctx, qp, gen, num, J, rng, idx):
     """QNode calls sharing one user cache vs the same QNode with cache=False."""
     nw = int(rng.integers(1, 3))
@@ -1254,7 +1289,7 @@ def run(ctx):
             ctx.case_index = idx
             rng = ctx.case_rng(idx)
             r = rng.random()
-            kind = case_batch if r < 0.62 else case_history if r < 0.80 else case_qnode if r < 0.90 else case_small_lru
+            kind = case_batch if r < 0.58 else case_history if r < 0.76 else case_qnode if r < 0.86 else case_small_lru if r < 0.94 else case_derived
             try:
                 kind(ctx, qp, gen, num, J, rng, idx)
             except Exception as e:  # noqa: BLE001 - harness/generator error: inconclusive case, never silent
